@@ -1668,7 +1668,14 @@ class TeX(object):
             if t.nodeType == Macro.ELEMENT_NODE and \
                isinstance(t, ParameterCommand):
                 ParameterCommand.enable()
-                return glue(sign * glue(t))
+                # An internal glue keeps its stretch and shrink components
+                stretch = getattr(type(t).value, 'stretch', None)
+                if stretch is not None:
+                    stretch = sign * stretch
+                shrink = getattr(type(t).value, 'shrink', None)
+                if shrink is not None:
+                    shrink = sign * shrink
+                return glue(sign * glue(t), stretch, shrink)
             self.pushToken(t)
             break
         dim = self.readDimen()
@@ -1698,7 +1705,14 @@ class TeX(object):
             if t.nodeType == Macro.ELEMENT_NODE and \
                isinstance(t, ParameterCommand):
                 ParameterCommand.enable()
-                return muglue(sign * muglue(t))
+                # An internal glue keeps its stretch and shrink components
+                stretch = getattr(type(t).value, 'stretch', None)
+                if stretch is not None:
+                    stretch = sign * stretch
+                shrink = getattr(type(t).value, 'shrink', None)
+                if shrink is not None:
+                    shrink = sign * shrink
+                return muglue(sign * muglue(t), stretch, shrink)
             self.pushToken(t)
             break
         dim = self.readMuDimen()
